@@ -1112,6 +1112,14 @@ func (f *fx) makeIface(v Val, t types.Type) Term {
 		isPtr = "true"
 	}
 	f.sc.declareOnce(fmt.Sprintf("is_ptr_tag#%d", tag), fmt.Sprintf("(assert (= (is_ptr_tag %d) %s))", tag, isPtr))
+	// what the concrete type is known to implement
+	errID := f.e.sorts.ifaceID(types.Universe.Lookup("error").Type())
+	f.sc.declareOnce(fmt.Sprintf("impl_err#%d", tag), fmt.Sprintf("(assert (= (implements %d %d) %v))", tag, errID, types.Implements(t, f.e.errorType)))
+	if f.e.rtErrType != nil {
+		if ri, ok := f.e.rtErrType.Underlying().(*types.Interface); ok {
+			f.sc.declareOnce(fmt.Sprintf("impl_rterr#%d", tag), fmt.Sprintf("(assert (= (implements %d %d) %v))", tag, f.e.sorts.ifaceID(f.e.rtErrType), types.Implements(t, ri)))
+		}
+	}
 	return T("Iface", "(mk_iface %d %s)", tag, payload.S)
 }
 
